@@ -242,6 +242,18 @@ impl vstd::std_specs::cmp::PartialEqSpecImpl for Errno {
     open spec fn obeys_eq_spec() -> bool { true }
     open spec fn eq_spec(&self, other: &Errno) -> bool { *self == *other }
 }
+// derived PartialOrd / Ord of Fd (ASSUMED to compare the numbers)
+pub open spec fn fd_cmp(a: Fd, b: Fd) -> core::cmp::Ordering {
+    if a.0 < b.0 { core::cmp::Ordering::Less } else if a.0 == b.0 { core::cmp::Ordering::Equal } else { core::cmp::Ordering::Greater }
+}
+impl vstd::std_specs::cmp::PartialOrdSpecImpl for Fd {
+    open spec fn obeys_partial_cmp_spec() -> bool { true }
+    open spec fn partial_cmp_spec(&self, other: &Fd) -> Option<core::cmp::Ordering> { Some(fd_cmp(*self, *other)) }
+}
+impl vstd::std_specs::cmp::OrdSpecImpl for Fd {
+    open spec fn obeys_cmp_spec() -> bool { true }
+    open spec fn cmp_spec(&self, other: &Fd) -> core::cmp::Ordering { fd_cmp(*self, *other) }
+}
 impl Errno { pub const EBADF: Errno = Errno(9); pub const EEXIST: Errno = Errno(17); pub const ENOENT: Errno = Errno(2); }
 
 // `impl From<crate::expansion::Error> for Error` of the code (what `?` applies to an expansion error), ASSUMED total
